@@ -26,10 +26,11 @@ RECURSIVE Walk(_, _, _, _, _)
 Walk(c, i, mode, rows, acc) ==
   IF i > Len(c.steps) THEN acc
   ELSE LET s == c.steps[i]
-           nmode == IF s.a \in {"init", "raw"} THEN "raw" ELSE IF s.a = "model" THEN s.m ELSE mode
+           sup == IF "supports" \in DOMAIN c THEN c.supports = 1 ELSE TRUE     \* created with model support?
+           nmode == IF s.a \in {"init", "raw"} THEN "raw" ELSE IF s.a = "model" /\ sup THEN s.m ELSE mode
            fr == IF s.a = "eval" /\ HasFresh(c, s.x, mode) THEN c.fresh[FreshOf(c, s.x, mode)] ELSE [failat |-> 0]
            nrows == IF s.a = "init" THEN 0
-                    ELSE IF s.a = "eval" /\ mode = "raw"
+                    ELSE IF s.a = "eval" /\ mode = "raw" /\ sup
                          THEN rows + ((IF fr.failat <= c.ncases THEN fr.failat ELSE c.ncases + 1) - 1) * c.rowsper
                          ELSE rows
            bad == (IF s.sc # nrows \/ s.df # nrows THEN
@@ -48,6 +49,10 @@ Walk(c, i, mode, rows, acc) ==
                                 \cup (IF mode = "raw" /\ fr.failat <= c.ncases /\ ~FSame(s.v, F1e200)
                                       THEN {"failure-value-not-1e200"} ELSE {}))
                         ELSE {})
+                  \* without model support, set_model and get_differentials must be refused (and change nothing:
+                  \* the evaluations that follow are judged against the real equations as before)
+                  \cup (IF ~sup /\ s.a \in {"model", "diff"} /\ ~("refused" \in DOMAIN s /\ s.refused = 1)
+                        THEN {"operation-not-refused-without-model-support"} ELSE {})
        IN Walk(c, i + 1, nmode, nrows, acc \cup bad)
 
 \* the arithmetic mean, recomputed exactly: the per-case merits js and the fresh value vs are given as natural
